@@ -840,8 +840,9 @@ func c37Bases(thorough bool) []c36Msg {
 		}},
 		c36Msg{H: h, Q: []c36Q{{N: 6, T: 1, C: 1}}, R: []c36R{{Sec: 1, Owner: 6, Class: 1, B: c36B{K: "NS", N1: 6}}}},
 	)
+	// the longest name (254 bytes), once spelled out after its own tail and once as a pointer
+	out = append(out, c36Msg{H: h, Q: []c36Q{{N: 8, T: 1, C: 1}}, R: []c36R{{Sec: 1, Owner: 7, Class: 1, B: c36B{K: "MX", N1: 7}}}})
 	if thorough {
-		out = append(out, c36Msg{H: h, Q: []c36Q{{N: 8, T: 1, C: 1}}, R: []c36R{{Sec: 1, Owner: 7, Class: 1, B: c36B{K: "MX", N1: 7}}}})
 		ents := c36SeqEntries()
 		for i, e1 := range ents {
 			for j, e2 := range ents {
@@ -1037,6 +1038,48 @@ func c37GenTails(thorough bool, yield func(c37Case) bool) {
 	}
 }
 
+// c37GenNameLen builds questions whose (expanded) name has every wire length
+// 250..260, spelled out or ending in a pointer to the name of a first question.
+func c37GenNameLen(yield func(c37Case) bool) {
+	labels := func(b []byte, total int) []byte { // labels with total wire length `total` (no terminator)
+		for total > 0 {
+			n := total - 1
+			if n > 63 {
+				n = 63
+			}
+			if total-1-n == 1 { // do not leave a single byte for the next label
+				n--
+			}
+			b = append(b, byte(n))
+			for i := 0; i < n; i++ {
+				b = append(b, 'a'+byte(n%26))
+			}
+			total -= 1 + n
+		}
+		return b
+	}
+	for total := 250; total <= 260; total++ {
+		// plain: labels + root terminator = total bytes
+		b := []byte{0, 2, 1, 0, 0, 1, 0, 0, 0, 0, 0, 0}
+		b = labels(b, total-1)
+		b = append(b, 0, 0, 1, 0, 1)
+		if !yield(c37Case{In: b, Origin: fmt.Sprintf("namelen: question name of %d wire bytes, spelled out", total)}) {
+			return
+		}
+		// first question: tail of t wire bytes at offset 12; second: prefix labels + pointer
+		for _, t := range []int{3, 12, 65, 129} {
+			b := []byte{0, 2, 1, 0, 0, 2, 0, 0, 0, 0, 0, 0}
+			b = labels(b, t-1)
+			b = append(b, 0, 0, 1, 0, 1)
+			b = labels(b, total-t)
+			b = append(b, 0xc0, 12, 0, 1, 0, 1)
+			if !yield(c37Case{In: b, Origin: fmt.Sprintf("namelen: question name of %d wire bytes ending in a pointer to a %d-byte tail", total, t)}) {
+				return
+			}
+		}
+	}
+}
+
 // c37GenOversize builds > 64 KiB inputs whose re-packed RDATA exceeds 65535 bytes.
 func c37GenOversize(yield func(c37Case) bool) {
 	hdr := []byte{0, 1, 0x81, 0x80, 0, 0, 0, 0, 0, 0, 0, 1} // one additional
@@ -1072,7 +1115,7 @@ func c37GenOversize(yield func(c37Case) bool) {
 func TestVerif_C37(t *testing.T) {
 	vx.Run(t, "C37", func(c *vx.Ctx) {
 		th := !c.Quick()
-		c.Rule("parts: mut = every base message (one of each supported record type between a question and a trailing A record that share name suffixes, pointer-to-pointer chains, questions only, empty; thorough adds more bodies, the 254-byte name and 2-record sequences), encoded by the harness with and without RFC 1035 compression, then unmodified / truncated at every length / every byte set to {0x00,0xff,0xc0,'.',v+1,v-1} / every compression pointer and every name start redirected to every offset 0..len+1 and 0x3fff / every RDLENGTH and section count set to boundary values; tail = header with every count pattern in {0,1,2,65535}^4 x every tail of <= 1 byte, and 15 one-hot/uniform count patterns x every tail of length 2..5 over {00,01,c0,0c,ff,'.'} (thorough: every 2-byte tail and length 3..6 over {00,01,40,c0,0c,ff,'.'}); oversize = 12 inputs > 64 KiB. Per input: Name.unpack/skipName at every offset (first 2048) against a reference name decoder; Unpack vs record-by-record Parser; every interleaving of the 6 per-record operations {full, skip, header+typed, header+skip, header twice+typed, header+full} while their number is <= the cap, else the 6 uniform and 6 rotating assignments; all 16 AllX/SkipAllX combinations; accepted => Pack and Unpack(Pack(m)) == m. non-trivial = at least one record was accepted by the parser")
+		c.Rule("parts: mut = every base message (one of each supported record type between a question and a trailing A record that share name suffixes, pointer-to-pointer chains, questions only, empty; the 254-byte name after its own tail; thorough adds more bodies and 2-record sequences), encoded by the harness with and without RFC 1035 compression, then unmodified / truncated at every length / every byte set to {0x00,0xff,0xc0,'.',v+1,v-1} / every compression pointer and every name start redirected to every offset 0..len+1 and 0x3fff / every RDLENGTH and section count set to boundary values; tail = header with every count pattern in {0,1,2,65535}^4 x every tail of <= 1 byte, and 15 one-hot/uniform count patterns x every tail of length 2..5 over {00,01,c0,0c,ff,'.'} (thorough: every 2-byte tail and length 3..6 over {00,01,40,c0,0c,ff,'.'}); namelen = questions whose expanded name has every wire length 250..260, spelled out or ending in a pointer to a 3/12/65/129-byte tail; oversize = 12 inputs > 64 KiB. Per input: Name.unpack/skipName at every offset (first 2048) against a reference name decoder; Unpack vs record-by-record Parser; every interleaving of the 6 per-record operations {full, skip, header+typed, header+skip, header twice+typed, header+full} while their number is <= the cap, else the 6 uniform and 6 rotating assignments; all 16 AllX/SkipAllX combinations; accepted => Pack and Unpack(Pack(m)) == m. non-trivial = at least one record was accepted by the parser")
 		c.Assume("a Skip method accepting a record that its parse method rejects is allowed (documented for resource headers; skips validate less); the reverse is reported")
 		c.Assume("equality of messages is semantic (nil == empty slices, Name.Data beyond Length ignored) and ignores ResourceHeader.Length, which Pack recomputes; inputs the reference name decoder would reject but Name.unpack also rejects are not compared (the implementation may be stricter, e.g. its 10-pointer limit)")
 		icap := vx.Pick(c, 40, 250)
@@ -1080,6 +1123,7 @@ func TestVerif_C37(t *testing.T) {
 		check := func(w *vx.W, x c37Case) { c37Check(w, x, icap) }
 		vx.Enumerate(c, "mut", vx.Opts{NoSample: false}, func(yield func(c37Case) bool) { c37GenMutations(th, yield) }, check)
 		vx.Enumerate(c, "tail", vx.Opts{}, func(yield func(c37Case) bool) { c37GenTails(th, yield) }, check)
+		vx.Enumerate(c, "namelen", vx.Opts{}, c37GenNameLen, check)
 		vx.Enumerate(c, "oversize", vx.Opts{}, c37GenOversize, check)
 	})
 }
